@@ -15,7 +15,7 @@ const RULES: [Rule; 3] = [Rule::r0, Rule::r1, Rule::r2];
 #[derive(Clone, Debug)]
 enum E {
     Str(&'static str), Seq(Box<E>, Box<E>), Alt(Box<E>, Box<E>), Opt(Box<E>), Rep(Box<E>), Pos(Box<E>), Neg(Box<E>),
-    Rule(usize, Box<E>), RuleA(usize, Box<E>), RuleC(usize, Box<E>), Atomic(Box<E>), Compound(Box<E>), NonAtomic(Box<E>), Push(Box<E>), Peek, Pop, Drop, Restore(Box<E>), Skip(usize), Eoi,
+    Rule(usize, Box<E>), RuleA(usize, Box<E>), RuleC(usize, Box<E>), Atomic(Box<E>), Compound(Box<E>), NonAtomic(Box<E>), Push(Box<E>), Peek, Pop, Drop, Restore(Box<E>), Skip(usize), Eoi, Range(char, char), Alpha, Insens(&'static str),
 }
 type S<'i> = Box<ParserState<'i, Rule>>;
 
@@ -41,6 +41,9 @@ fn run<'i>(e: &E, s: S<'i>) -> ParseResult<S<'i>> {
         E::Restore(a) => s.restore_on_err(|s| run(a, s)),
         E::Skip(n) => s.skip(*n),
         E::Eoi => s.end_of_input(),
+        E::Range(a, b) => s.match_range(*a..*b),
+        E::Alpha => s.match_char_by(|c| c.is_alphabetic()),
+        E::Insens(t) => s.match_insensitive(t),
     }
 }
 
@@ -106,6 +109,9 @@ fn refi(e: &E, input: &str, mut m: M) -> Result<M, M> {
         E::Restore(a) => { let st = m.stack.clone(); match refi(a, input, m) { Ok(n) => Ok(n), Err(mut n) => { n.stack = st; Err(n) } } }
         E::Skip(k) => { let mut p = m.pos; let mut it = input[p..].chars(); for _ in 0..*k { match it.next() { Some(c) => p += c.len_utf8(), None => return Err(m) } } m.pos = p; Ok(m) }
         E::Eoi => if m.pos == input.len() { Ok(m) } else { Err(m) },
+        E::Range(a, b) => match input[m.pos..].chars().next() { Some(c) if *a <= c && c <= *b => { m.pos += c.len_utf8(); Ok(m) } _ => Err(m) },
+        E::Alpha => match input[m.pos..].chars().next() { Some(c) if c.is_alphabetic() => { m.pos += c.len_utf8(); Ok(m) } _ => Err(m) },
+        E::Insens(t) => match input.get(m.pos..m.pos + t.len()) { Some(x) if x.eq_ignore_ascii_case(t) => { m.pos += t.len(); Ok(m) } _ => Err(m) },
     }
 }
 
@@ -265,6 +271,22 @@ fn wide(shared: usize, keywords: usize) -> E {
     E::Rule(0, Box::new(e))
 }
 const WIDE_INPUTS: [&str; 6] = ["", "z", "a", "ab", "x", "az"];
+/// fourth family (C15): one matcher on possibly multi-byte text, followed by something that does not report a token attempt
+fn matcher_programs() -> Vec<E> {
+    let ms = || vec![E::Str("é"), E::Str("a"), E::Insens("É"), E::Insens("A"), E::Range('a', 'ÿ'), E::Range('é', 'é'), E::Alpha, E::Skip(1)];
+    let ts = || vec![E::Eoi, E::Skip(1), E::Str("z"), E::Range('0', '9'), E::Peek, E::Drop];
+    let mut out = vec![];
+    for m in ms() { for t in ts() {
+        let sq = E::Seq(Box::new(m.clone()), Box::new(t.clone()));
+        out.push(E::Rule(0, Box::new(sq.clone())));
+        out.push(E::Rule(0, Box::new(E::Seq(Box::new(E::Rule(1, Box::new(m.clone()))), Box::new(t.clone())))));
+        out.push(E::Rule(0, Box::new(E::Alt(Box::new(sq.clone()), Box::new(E::Str("q"))))));
+        out.push(E::Rule(0, Box::new(E::Seq(Box::new(E::Rep(Box::new(m.clone()))), Box::new(t.clone())))));
+        out.push(E::Rule(0, Box::new(E::Seq(Box::new(E::Neg(Box::new(t.clone()))), Box::new(E::Seq(Box::new(m.clone()), Box::new(t.clone())))))));
+    } }
+    out
+}
+const MATCHER_INPUTS: [&str; 9] = ["", "é", "éx", "é!", "a", "ax", "я", "яz", "é9"];
 /// second wide family: T bare token attempts owned by an open outer rule, then a wrapper rule that starts with a rule trying
 /// A failing rule alternatives at the same position (A >= 4 takes the threshold-collapse branch of try_add_new_stack_rule)
 fn collapse(tokens: usize, alts: usize, wrappers: usize) -> E {
@@ -283,7 +305,7 @@ fn nonprogress(e: &E) -> bool { // repeat over something that can succeed withou
 }
 fn nullable(e: &E) -> bool {
     match e { E::Str(t) => t.is_empty(), E::Seq(a, b) => nullable(a) && nullable(b), E::Alt(a, b) => nullable(a) || nullable(b), E::Opt(_) | E::Rep(_) | E::Pos(_) | E::Neg(_) | E::Peek | E::Pop | E::Drop | E::Eoi => true,
-        E::Rule(_, a) | E::RuleA(_, a) | E::RuleC(_, a) | E::Atomic(a) | E::Compound(a) | E::NonAtomic(a) | E::Push(a) | E::Restore(a) => nullable(a), E::Skip(k) => *k == 0 }
+        E::Rule(_, a) | E::RuleA(_, a) | E::RuleC(_, a) | E::Atomic(a) | E::Compound(a) | E::NonAtomic(a) | E::Push(a) | E::Restore(a) => nullable(a), E::Skip(k) => *k == 0, E::Range(..) | E::Alpha => false, E::Insens(t) => t.is_empty() }
 }
 fn main() {
     std::panic::set_hook(Box::new(|_| {}));
@@ -301,6 +323,11 @@ fn main() {
         if j.contains("\"stage\":\"wide\"") {
             let prog = wide(get("shared").parse().unwrap(), get("keywords").parse().unwrap());
             match check(&prog, &input, "all") { Ok(()) => println!("wide choice (shared {}, keywords {}) on {:?}: agrees with the direct reading on this tree", get("shared"), get("keywords"), input), Err(e) => { println!("FAILS: wide choice (shared {}, keywords {}) on {:?}: {}", get("shared"), get("keywords"), input, e); std::process::exit(1) } }
+            return;
+        }
+        if j.contains("\"stage\":\"matchers\"") {
+            let prog = matcher_programs()[idx].clone();
+            match check(&prog, &input, "all") { Ok(()) => println!("program {:?} on {:?}: agrees with the direct reading on this tree", prog, input), Err(e) => { println!("FAILS: program {:?} on {:?}: {}", prog, input, e); std::process::exit(1) } }
             return;
         }
         if j.contains("\"stage\":\"collapse\"") {
@@ -370,6 +397,13 @@ fn main() {
                     println!("WITNESS {{\"program_index\":\"0\",\"input\":\"{}\",\"stage\":\"wide\",\"shared\":\"{}\",\"keywords\":\"{}\",\"program\":\"stmt = create ~ b (x{}) | b (x{}) | other\",\"what\":\"{}\"}}", input, sh, kw, sh, kw, w.replace('"', "'"));
                     return;
                 } } } }
+        }
+        if mode == "C15" || mode == "C03" {
+            for (i, e) in matcher_programs().iter().enumerate() { if nonprogress(e) { continue; } for input in MATCHER_INPUTS {
+                if let Err(w) = check(e, input, &mode) {
+                    println!("WITNESS {{\"program_index\":\"{}\",\"input\":\"{}\",\"stage\":\"matchers\",\"program\":\"{}\",\"what\":\"{}\"}}", i, input, format!("{:?}", e).replace('"', "'"), w.replace('"', "'"));
+                    return;
+                } } }
         }
         if mode == "C15" {
             for tk in 0..=5usize { for al in 1..=9usize { for wr in 0..=2usize { let e = collapse(tk, al, wr); for input in WIDE_INPUTS {
